@@ -88,7 +88,7 @@ func c07Digest(m *dns.Msg) string {
 						os = append(os, fmt.Sprint(e.Option()))
 					}
 				}
-				parts = append(parts, fmt.Sprintf("%d:OPT %s", si, strings.Join(os, "+")))
+				parts = append(parts, fmt.Sprintf("%d:OPT do=%v %s", si, o.Do(), strings.Join(os, "+")))
 				continue
 			}
 			c := dns.Copy(rr)
@@ -320,6 +320,7 @@ func TestVerifC07Stack(t *testing.T) {
 		do             bool
 		ad, opt        bool // the AD bit set in the query; an OPT record without the DO bit
 		ch             bool // CHAOS class: the debug variant of the query
+		ecs            bool // a client-subnet option (with an OPT record)
 		conc           *dns.Msg
 		idok, qok      bool
 	}
@@ -331,8 +332,12 @@ func TestVerifC07Stack(t *testing.T) {
 			if j.ch {
 				m.Question[0].Qclass = dns.ClassCHAOS
 			}
-			if j.do || j.opt {
+			if j.do || j.opt || j.ecs {
 				m.SetEdns0(4096, j.do)
+			}
+			if j.ecs {
+				m.IsEdns0().Option = append(m.IsEdns0().Option, &dns.EDNS0_SUBNET{Code: dns.EDNS0SUBNET, Family: 1, SourceNetmask: 24,
+					Address: net.IPv4(198, 51, 100, 0).To4()})
 			}
 			b, _ := m.Pack()
 			var raw []byte
@@ -388,8 +393,12 @@ func TestVerifC07Stack(t *testing.T) {
 		if j.ch {
 			m.Question[0].Qclass = dns.ClassCHAOS
 		}
-		if j.do || j.opt {
+		if j.do || j.opt || j.ecs {
 			m.SetEdns0(4096, j.do)
+		}
+		if j.ecs {
+			m.IsEdns0().Option = append(m.IsEdns0().Option, &dns.EDNS0_SUBNET{Code: dns.EDNS0SUBNET, Family: 1, SourceNetmask: 24,
+				Address: net.IPv4(198, 51, 100, 0).To4()})
 		}
 		// dns.Client rejects replies with a foreign id: read them ourselves
 		conn, derr := cl.Dial(addr)
@@ -416,8 +425,18 @@ func TestVerifC07Stack(t *testing.T) {
 		for c := 0; c < nclients; c++ {
 			for i := 0; i < per; i++ {
 				jobs[c] = append(jobs[c], &job{client: fmt.Sprintf("127.0.0.%d", 10+c), netw: []string{"udp", "udp", "tcp", "doh", "doh", "doq", "tcp", "tcp-abort"}[rng.Intn(8)],
-					name: names[rng.Intn(len(names))], qt: types[rng.Intn(len(types))], do: rng.Intn(4) == 0, ad: rng.Intn(3) == 0, opt: rng.Intn(2) == 0, ch: rng.Intn(8) == 0})
+					name: names[rng.Intn(len(names))], qt: types[rng.Intn(len(types))], do: rng.Intn(4) == 0, ad: rng.Intn(3) == 0, opt: rng.Intn(2) == 0, ch: rng.Intn(8) == 0, ecs: rng.Intn(4) == 0})
 			}
+		}
+		// every client starts the round with the same few names nobody has asked for yet: simultaneous
+		// misses for one cache key, their answers stored one after the other while the first hits come in
+		for c := 0; c < nclients; c++ {
+			var burst []*job
+			for k := 0; k < 10; k++ {
+				burst = append(burst, &job{client: fmt.Sprintf("127.0.0.%d", 10+c), netw: []string{"udp", "tcp"}[(c+k)%2],
+					name: fmt.Sprintf("burst%d-%d.c07.example.", round, k), qt: dns.TypeA})
+			}
+			jobs[c] = append(burst, jobs[c]...)
 		}
 		var wg sync.WaitGroup
 		for c := 0; c < nclients; c++ {
